@@ -499,7 +499,7 @@ func genSets(r *hx.Rand, base int, saltPool int) []fs {
 }
 
 func main() {
-	c := hx.Start("C41", "Run.Check_C41", 60)
+	c := hx.Start("C41", "Run.Check_C41", 110)
 
 	saltsCase := func(kind string, ops []op) {
 		c.Obs.Evaluations++
@@ -587,7 +587,7 @@ func main() {
 		{Kind: kGet, Arg: 50}, {Kind: kGet, Arg: 100}, {Kind: kGet, Arg: 99}, {Kind: kGet, Arg: 250}, {Kind: kGet, Arg: 300}, {Kind: kGet, Arg: 0}})
 	saltsCase("corpus", []op{{Kind: kStore, Salts: []fs{{100, 1}, {90, 1}, {100, 2}, {100, 3}}}, {Kind: kGet, Arg: 95},
 		{Kind: kStore, Salts: []fs{{500, 1}, {80, 4}}}, {Kind: kGet, Arg: 100}, {Kind: kReset}, {Kind: kGet, Arg: 0}})
-	for i := 0; i < c.N(250, 8000); i++ {
+	for i := 0; i < c.N(250, 900); i++ {
 		base := 10000
 		pool := []int{3, 8, 12}[c.Rng.Intn(3)] // <= 12 stored salts: sort.Sort is insertion sort there
 		n := c.Rng.Range(1, 14)
@@ -623,7 +623,7 @@ func main() {
 
 	// (b)+(c): a real Conn; clock readings advance
 	startNs := int64(1_704_067_200) * 1e9
-	for i := 0; i < c.N(120, 4000); i++ {
+	for i := 0; i < c.N(120, 350); i++ {
 		cr := connRun{Init: int64(c.Rng.Range(1, 9)), Seed: c.Rng.U64()}
 		now := startNs
 		base := int(now/1e9) + 300
